@@ -23,14 +23,22 @@ theorem const_cap_pos : 1 ≤ Gen.maxSessionACLCache := by decide
 /-- the value the property text quotes -/
 theorem const_cap : Gen.maxSessionACLCache = 256 := by decide
 
-/-! ### the skeleton of the functions modelled (regenerated from the source; see Hy.Props.C07) -/
+/-! ### the statements the model is written from (normalised source text regenerated from udp.go):
+  Feed from `if e.conn == nil` on, checkAddr, the dial call and override assignment of initConn, the
+  original-address substitution of receiveLoop, the dialFunc closure (hook → log → dial with the HOOKED
+  address).  The lifecycle parts of these functions (locks, closed flag, activity stamp) are C07's. -/
 
-theorem skeleton_Feed : Gen.udpSkel_Feed =
-    "e.Last.Set e.D.Feed if(dfMsg==nil){ ret } if(e.conn==nil){ e.initConn if(err!=nil){ ret } if(e.OverrideAddr==\"\"){ set(e.aclCache) } } if(e.OverrideAddr!=\"\"){ } else{ e.checkAddr if(err!=nil){ ret } } e.conn.WriteTo ret" := rfl
-theorem skeleton_checkAddr : Gen.udpSkel_checkAddr =
-    "if(ok){ ret } e.IO.CheckUDP if(len(e.aclCache)>=maxSessionACLCache){ range(e.aclCache){ delete(e.aclCache,k) break } } if(e.aclCache==nil){ set(e.aclCache) } set(e.aclCache[addr]) ret" := rfl
-theorem skeleton_initConn : Gen.udpSkel_initConn =
-    "e.connLock.Lock if(e.closed){ e.connLock.Unlock ret } e.DialFunc if(err!=nil){ e.connLock.Unlock e.CloseWithErr ret } set(e.conn) if(firstMsg.Addr!=actualAddr){ set(e.OverrideAddr) set(e.OriginalAddr) } go(e.receiveLoop) e.connLock.Unlock ret" := rfl
+theorem skeleton_Feed : Gen.udpAclSkel_Feed =
+    "ife.conn==nil{err:=e.initConn(dfMsg)iferr!=nil{return0,err}ife.OverrideAddr==\"\"{e.aclCache=map[string]error{dfMsg.Addr:nil}}} ; addr:=dfMsg.Addr ; ife.OverrideAddr!=\"\"{addr=e.OverrideAddr}elseiferr:=e.checkAddr(addr);err!=nil{return0,err} ; returne.conn.WriteTo(dfMsg.Data,addr)" := rfl
+theorem skeleton_checkAddr : Gen.udpAclSkel_checkAddr =
+    "{ifdecision,ok:=e.aclCache[addr];ok{returndecision}decision:=e.IO.CheckUDP(addr)iflen(e.aclCache)>=maxSessionACLCache{fork:=rangee.aclCache{delete(e.aclCache,k)break}}ife.aclCache==nil{e.aclCache=make(map[string]error,4)}e.aclCache[addr]=decisionreturndecision}" := rfl
+theorem skeleton_initConn : Gen.udpAclSkel_initConn =
+    "conn,actualAddr,err:=e.DialFunc(firstMsg.Addr,firstMsg.Data) ; iffirstMsg.Addr!=actualAddr{e.OverrideAddr=actualAddre.OriginalAddr=firstMsg.Addr}" := rfl
+theorem skeleton_receiveLoop : Gen.udpAclSkel_receiveLoop =
+    "ife.OriginalAddr!=\"\"{rAddr=e.OriginalAddr} ; Addr:rAddr" := rfl
+theorem skeleton_dialFunc : Gen.udpAclSkel_dialFunc =
+    "{err=m.io.Hook(firstMsgData,&addr)iferr!=nil{returnconn,actualAddr,err}actualAddr=addrm.eventLogger.New(msg.SessionID,addr)conn,err=m.io.UDP(addr)returnconn,actualAddr,err}" := rfl
+
 
 abbrev cap := Gen.maxSessionACLCache
 
